@@ -224,6 +224,53 @@ def h_close_both(ctx, when):
         ctx.observe("n", len(events))
 
 
+def h_close_many(ctx, n, gap):
+    """Several channels closed one after the other while earlier stream resets are still pending:
+    every one of them ends up closed at both ends and its id is freed."""
+    with Env(crc=_crc()) as env:
+        a, b = _pair(env)
+        remote = []
+        b.on("datachannel", lambda ch: remote.append(ch))
+        chans = [RTCDataChannel(a, RTCDataChannelParameters(label="c%d" % i)) for i in range(n)]
+        env.drain()
+        _pump(env, a, b)
+        _pump(env, b, a)
+        ctx.check(all(c.readyState == "open" for c in chans) and len(remote) == n, "all-open")
+
+        def carry(rounds):
+            for _ in range(rounds):
+                for src, dst in ((a, b), (b, a)):
+                    sent = src.transport.sent
+                    while sent:
+                        sx.run(dst._handle_data(sent.pop(0)))
+                        env.drain()
+
+        order = list(range(n))
+        first = ctx.choice("first", order)
+        order.remove(first)
+        chans[first].close()
+        env.drain()
+        if gap == "after-request":
+            pass  # the first RE-CONFIG request is on the wire, its response has not come back
+        else:
+            carry(1)
+        for i in order:
+            chans[i].close()
+            env.drain()
+        carry(2 * n + 2)
+        _pump(env, a, b)
+        _pump(env, b, a)
+        carry(2)
+        ctx.reach("many-closed")
+        for c in chans:
+            ctx.check(c.readyState == "closed", "every-closed-channel-reaches-closed-locally")
+            ctx.check(c.id not in a._data_channels, "every-closed-channel-frees-its-id")
+        for r in remote:
+            ctx.check(r.readyState == "closed", "every-closed-channel-reaches-closed-remotely")
+        ctx.check(not a._reconfig_queue and a._reconfig_request is None, "no-stream-reset-left-pending")
+        ctx.observe("n", n)
+
+
 def h_buffered(ctx):
     """_addBufferedAmount: bufferedamountlow fires exactly on downward crossings of the threshold."""
     with Env(crc=_crc()) as env:
@@ -323,6 +370,7 @@ HARNESSES = {
     "ids": Harness("ids", h_ids, lambda tier: [{"role": r, "nexisting": n} for r in ("controlling", "controlled") for n in (0, 1, 2, 3)], style="STEP", bounds="<=3 existing channels with symbolic distinct ids 0..12, both roles", encoded=ENC, stubs=STUBS, twin="id-allocated"),
     "states": Harness("states", h_states, lambda tier: [{"pre": p, "event": e} for p in PRE for e in EVENTS], style="STEP", bounds="6 abstract pre-states x 7 events; channel id, DCEP message byte, stream ids and sequence numbers of the RE-CONFIG parameters symbolic (the solver decides whether they match the channel / the pending request)", encoded=ENC, stubs=STUBS, twin="event-processed"),
     "close-both": Harness("close-both", h_close_both, lambda tier: [{"when": w} for w in ("immediately", "after-open")], style="RT", bounds="close() immediately after create and after open, two transports exchanging real datagrams", encoded=ENC, stubs=STUBS, twin="close-exchanged"),
+    "close-many": Harness("close-many", h_close_many, lambda tier: [{"n": n, "gap": g} for n in ((2, 3) if tier == "quick" else (2, 3, 4)) for g in ("after-request", "after-response")], style="BMC", bounds="2..3 (4) channels closed one after the other (first one solver-chosen) while the previous stream reset request is still unanswered or just answered; real RE-CONFIG datagrams between two transports", encoded=ENC, stubs=STUBS, twin="many-closed"),
     "buffered": Harness("buffered", h_buffered, lambda tier: [{}], style="STEP+LEMMA", bounds="current 0..2^20, threshold 0..2^32-1, amount +-2^20", encoded=ENC, stubs=STUBS, twin="added"),
     "buffered-flow": Harness("buffered-flow", h_buffered_flow, lambda tier: [{"n1": a, "n2": b, "established": e} for a in (0, 1, 3) for b in (0, 1, 2) for e in (True, False)], style="STEP", bounds="two sends (bytes 0..3, str 0..2 code points < U+0800), established or not, cwnd 1200 or large, then close()", encoded=ENC, stubs=STUBS, twin="flow-done"),
 }
